@@ -276,6 +276,8 @@ def resolve(world, op):
         cs, sflat = wsel_ids(ss, op["sw"])
         cd, dflat = wsel_ids(ds, op["dw"])
         n = max(len(sflat), len(dflat))
+        if n == 1 and op["vols"]["t"] != "scalar" and len(op["vols"]["v"]) > 1 and cs["t"] != "arr2" and cd["t"] != "arr2":
+            n = len(op["vols"]["v"])  # one source well, one destination well, several volumes
         bs = sflat * n if len(sflat) == 1 else sflat
         bd = dflat * n if len(dflat) == 1 else dflat
         if len(bs) != len(bd):
